@@ -158,15 +158,15 @@ PROPS["C12"]["harness"] = "harness.combo:C12"
 PROPS["C12"]["explanation"] += " http level: native harness drives http.Server over a fake socket in virtual tyme (silent, partial request then silent, bursts, steady traffic)."
 
 PROPS["C13"] = dict(
-    contracts=["contracts.http_parse"], harness="harness.http_native:C13", level="other", trusted_base=HTTP_EXT,
+    contracts=["contracts.http_parse", "contracts.c13_body", "contracts.c13_leader"], harness="harness.http_native:C13", level="other", trusted_base=HTTP_EXT,
     assumptions=["L-FRAG (lemmas/LFrag.lean): idle-stutter + prefix-stability of every step imply independence of any fragmentation; machine-checked over abstract steps",
                  "parseLeader/parseChunk/parseHead/parseBody steps are not under pyvc contract yet (no coroutine support for next(sub-generator) in the engine): bounded natively"],
-    explanation="parseLine (the leaf of every HTTP parser) PROVED per step for symbolic buffers: a step that waits leaves the buffer untouched (idle-stutter); a step that yields a line "
+    explanation="PROVED as generators under contract with the environment appending arbitrary bytes (and possibly closing the connection) at every wait: httping.parseLeader, one ARBITRARY turn of its line loop after any history of waits (a wait never consumes; a line is found from position 0 of the whole buffer, so a terminator straddling two reads is found; exactly line + terminator consumed; header stored as name / stripped value; empty line yields the headers; only HTTPException subclasses) -- contracts/c13_leader.py; Requestant.parseBody: a length-delimited body is exactly the next L bytes of the stream, exactly those consumed, PrematureClosure only when closed short; a chunked body is the data chunks in order for any number of chunks; neither -> HTTPException -- contracts/c13_body.py. parseLine (the leaf of every HTTP parser) PROVED per step for symbolic buffers: a step that waits leaves the buffer untouched (idle-stutter); a step that yields a line "
                 "yields the bytes up to the EARLIEST terminator and consumes line+terminator; progress on b implies the same progress on b++e with rest++e (prefix-stability, relational "
                 "two-run VC; z3 with cvc5 taking the str.indexof queries z3 leaves unknown). Proved for eols=(CRLF,); for (CRLF, LF) the code searches by terminator precedence, which is "
                 "a recorded finding. " + HTTP_NOTE)
 PROPS["C17"] = dict(
-    contracts=["contracts.http_parse", "contracts.c17_chunk"], harness="harness.http_native:C17", level="other", trusted_base=HTTP_EXT,
+    contracts=["contracts.http_parse", "contracts.c17_chunk", "contracts.c13_body"], harness="harness.http_native:C17", level="other", trusted_base=HTTP_EXT,
     explanation="PROVED: parseChunk as a generator under contract with the environment appending arbitrary bytes at every wait (contracts/c17_chunk.py; parseLine/parseLeader by their callee contracts, no chunk extension): size = hex value of the stripped size line, rejected with HTTPException iff empty or not all hex digits; the chunk is exactly the first `size` bytes of the stream after the size line (it waits for them), exactly those are consumed, the line after the data must be empty, framing lines end with CRLF only; last chunk carries the parsed trailers. parseLine step contracts with eols=(CRLF,) PROVED (chunk-size and chunk-end lines). Chunk decode round trip packChunk -> parseChunk over random bodies, chunk partitions, "
                 "trailers and wire fragmentations, and rejection of non-plain-hex sizes: bounded natively. " + HTTP_NOTE)
 PROPS["C15"] = dict(
@@ -174,7 +174,7 @@ PROPS["C15"] = dict(
     explanation="parseLine step contracts with eols=(CRLF, LF, CR) (earliest-terminator and prefix-stability clauses: both are recorded findings on this tree). Event dispatch against an SSE reference "
                 "written from the ABNF, plain and chunked transport, all line-terminator mixes, fragmentations: bounded natively. " + HTTP_NOTE)
 PROPS["C16"] = dict(
-    contracts=["contracts.http_parse", "contracts.c17_chunk"], harness="harness.http_native:C16", level="other", trusted_base=HTTP_EXT,
+    contracts=["contracts.http_parse", "contracts.c17_chunk", "contracts.c13_body", "contracts.c13_leader"], harness="harness.http_native:C16", level="other", trusted_base=HTTP_EXT,
     explanation="parseLine PROVED to raise only LineTooLong (an HTTPException) and only beyond the limit. Everything above it: near-valid and mutated byte strings through Server.service, "
                 "BareServer.service and http Client.service on fake sockets with a second, healthy connection that must still be served: bounded natively. " + HTTP_NOTE)
 PROPS["C14"] = dict(
